@@ -6,3 +6,21 @@ the library computes.
 import os
 
 ENABLED = os.environ.get("CNFGEN_VERIF") == "1"
+
+
+def note_literals(formula, literals):
+    """Remember the largest variable mentioned by a clause/constraint"""
+    top = getattr(formula, '_verif_maxvar', 0)
+    for lit in literals:
+        if isinstance(lit, int) and not isinstance(lit, bool) and abs(lit) > top:
+            top = abs(lit)
+    formula._verif_maxvar = top
+
+
+def note_group(formula, begin, end):
+    """Record a new variable group that reuses an identifier already mentioned"""
+    top = getattr(formula, '_verif_maxvar', 0)
+    if begin <= top:
+        if not hasattr(formula, '_verif_events'):
+            formula._verif_events = []
+        formula._verif_events.append((begin, end, top))
